@@ -56,7 +56,11 @@ mod absolute_to_relative_time {
         D: Deserializer<'de>,
     {
         let deadline = Duration::deserialize(deserializer)?;
-        Ok(Instant::now() + deadline)
+        // The duration is chosen by the peer; saturate instead of overflowing.
+        let now = Instant::now();
+        Ok(now
+            .checked_add(deadline)
+            .unwrap_or_else(|| now + Duration::from_secs(30 * 365 * 24 * 60 * 60)))
     }
 
     #[cfg(test)]
